@@ -51,11 +51,19 @@ pub enum Alias {
     DoubleSlashAbs,
     /// xcp --target-directory . f
     TargetDirOwn,
+    /// the source is a FIFO / socket and the destination is another spelling of it: xcp p ./p
+    FifoDotSlash,
+    SockDotDot,
+    /// ln p ph; xcp p ph     (hard link of a FIFO)
+    FifoHardlink,
+    /// xcp -r t .  where t contains a FIFO (maps onto itself)
+    DirWithFifoOwnParent,
 }
 
 const ALIASES: &[Alias] = &[
     Alias::DotSlash, Alias::DotDot, Alias::AbsVsRel, Alias::RelVsAbs, Alias::OwnDir, Alias::OwnSubDir, Alias::Symlink, Alias::SymlinkAbs,
     Alias::Hardlink, Alias::DirSymlinkT, Alias::DirOwnParent, Alias::DirOwnParentSlash, Alias::DirParentViaLink, Alias::DoubleSlashAbs, Alias::TargetDirOwn,
+    Alias::FifoDotSlash, Alias::SockDotDot, Alias::FifoHardlink, Alias::DirWithFifoOwnParent,
 ];
 
 #[derive(Clone, Debug, Serialize, Deserialize)]
@@ -66,11 +74,14 @@ pub struct AliasCase {
     pub flags: (bool, u8, Option<u64>),
     pub backup: u8,
     pub extra: u8,
+    /// run under the supervisor and fail the k-th stat-like lookup of the destination path with EACCES/EIO
+    #[serde(default)]
+    pub stat_fault: Option<(u8, bool)>,
 }
 
 fn alias_strategy() -> BoxedStrategy<AliasCase> {
-    (0..ALIASES.len(), prop_oneof![1 => Just(0u32), 6 => 1u32..5000, 1 => 100000u32..300000], prop::collection::vec(gent(TOP_SAFE, false), 1..6), common_flags(), 0u8..4, 0u8..8)
-        .prop_map(|(a, len, tree, flags, backup, extra)| AliasCase { alias: ALIASES[a], len, tree, flags, backup, extra })
+    (0..ALIASES.len(), prop_oneof![1 => Just(0u32), 6 => 1u32..5000, 1 => 100000u32..300000], prop::collection::vec(gent(TOP_SAFE, false), 1..6), common_flags(), 0u8..4, 0u8..8, prop::option::weighted(0.3, (0u8..16, any::<bool>())))
+        .prop_map(|(a, len, tree, flags, backup, extra, stat_fault)| AliasCase { alias: ALIASES[a], len, tree, flags, backup, extra, stat_fault })
         .boxed()
 }
 
@@ -174,6 +185,28 @@ fn alias_build(c: &AliasCase, root: &[u8]) -> (Vec<Ent>, Inv) {
             inv.dest = s(".");
             inv.target_dir_opt = true;
         }
+        Alias::FifoDotSlash => {
+            ents.push(Ent::new(b"p", Kind::Fifo).with_mode(0o640));
+            inv.sources = vec![s("p")];
+            inv.dest = s("./p");
+        }
+        Alias::SockDotDot => {
+            ents.push(Ent::new(b"p", Kind::Sock).with_mode(0o600));
+            inv.sources = vec![s("p")];
+            inv.dest = s("by/../p");
+        }
+        Alias::FifoHardlink => {
+            ents.push(Ent::new(b"p", Kind::Fifo).with_mode(0o640));
+            ents.push(Ent::new(b"ph", Kind::Hard(b"p".to_vec())));
+            inv.sources = vec![s("p")];
+            inv.dest = s("ph");
+        }
+        Alias::DirWithFifoOwnParent => {
+            ents.push(Ent::new(b"t/zz_fifo", Kind::Fifo).with_mode(0o644));
+            inv.sources = vec![s("t")];
+            inv.dest = s(".");
+            inv.recursive = true;
+        }
     }
     (ents, inv)
 }
@@ -192,16 +225,34 @@ fn judge_alias(c: &AliasCase, rec: &mut Rec) -> Verdict {
         Ok(s) => s,
         Err(e) => return Verdict::Inconclusive(format!("snapshot: {e}")),
     };
-    let out = run_plain(&RunSpec::xcp(inv.argv(), &sb.root, &sb.out));
+    // optionally one injected lookup failure on the destination path ("for each injected system-call failure")
+    let (ok, code, timed_out, stderr, fault_fired) = if let Some((k, eio)) = c.stat_fault {
+        let dest_abs = lex_norm(&root, &inv.dest);
+        let rule = Rule { sys: vec![Sys::Stat, Sys::Access], path: PathSel::Exact(dest_abs), nth: Nth::Kth(k as usize), action: Action::Errno(if eio { libc::EIO } else { libc::EACCES }) };
+        let o = Sup::run(sup_spec(&sb, inv.argv(), vec![rule], Sched::free()));
+        if o.setup_error.is_some() {
+            return Verdict::Inconclusive(format!("supervisor {:?}", o.setup_error));
+        }
+        (o.ok(), o.code, o.timed_out, o.stderr_s(), o.fired.iter().sum::<usize>() > 0)
+    } else {
+        let o = run_plain(&RunSpec::xcp(inv.argv(), &sb.root, &sb.out));
+        (o.ok(), o.code, o.timed_out, o.stderr_s(), false)
+    };
     rec.eval(1);
-    if out.timed_out {
+    if timed_out {
         return Verdict::Inconclusive("watchdog".into());
     }
     let post = match snapshot(&sb.root) {
         Ok(s) => s,
         Err(e) => return Verdict::Inconclusive(format!("snapshot: {e}")),
     };
+    struct O { code: Option<i32>, okf: bool, stderr: String }
+    impl O { fn ok(&self) -> bool { self.okf } fn stderr_s(&self) -> String { self.stderr.clone() } }
+    let out = O { code, okf: ok, stderr };
     let driver = inv.driver();
+    if c.stat_fault.is_some() {
+        rec.class(format!("alias+stat-fault|fired={}", fault_fired));
+    }
     let new = rec.class(format!("alias|{:?}|{}|backup={}|exit={}", c.alias, driver, inv.backup, if out.ok() { "0" } else { "!0" }));
     rec.nontrivial(case_hash(c));
     if new {
@@ -213,9 +264,10 @@ fn judge_alias(c: &AliasCase, rec: &mut Rec) -> Verdict {
     if diffs.is_empty() {
         return Verdict::Pass;
     }
-    let what = if diffs.iter().any(|d| d.contains("content") || d.contains("size")) { "source-content-destroyed" } else { "source-or-dir-metadata-changed" };
+    let what = if diffs.iter().any(|d| d.contains("content") || d.contains("size")) { "source-content-destroyed" } else if diffs.iter().any(|d| d.starts_with("removed")) { "source-removed" } else { "source-or-dir-metadata-changed" };
+    let special = matches!(c.alias, Alias::FifoDotSlash | Alias::SockDotDot | Alias::FifoHardlink | Alias::DirWithFifoOwnParent);
     Verdict::faild(
-        format!("C03|alias|{}", what),
+        format!("C03|alias|{}{}{}", what, if special { "|special-file" } else { "" }, if fault_fired { "|after-failed-lookup" } else { "" }),
         format!("self-copy through {:?} changed the source: {}", c.alias, diffs.iter().take(3).cloned().collect::<Vec<_>>().join("; ")),
         json!({"argv": inv.argv_s(), "exit": out.code, "stderr": out.stderr_s(), "diffs": diffs.iter().take(10).collect::<Vec<_>>()}),
     )
@@ -496,6 +548,7 @@ impl Check for C03 {
     }
     fn required_classes(&self, _tier: Tier) -> Vec<String> {
         let mut v: Vec<String> = ALIASES.iter().map(|a| format!("alias|{:?}|", a)).collect();
+        v.push("alias+stat-fault|fired=true".to_string());
         v.extend(["kill|Open|", "kill|CopyFileRange|", "kill|Ftruncate|", "kill|Mkdir|", "|after|", "|before|"].iter().map(|s| s.to_string()));
         v
     }
